@@ -29,7 +29,7 @@ META = {
               "class:renamed-unread": 100, "class:renamed-read": 100,
               "class:unknown-read": 200, "class:unknown-untouched": 200,
               "noncanonical_tables": 100, "stale_bytes_would_differ": 500,
-              "generations:4": 50},
+              "generations:4": 50, "twin_tables": 200},
     "assumptions": [
         "new type names are supported and compatible with the value "
         "(integer widening, float->double, sequence->set)",
@@ -52,6 +52,26 @@ def widen(rnd, t):
             hashable_type(kids[0]):
         return ("set", [widen(rnd, kids[0])])
     return (name, [widen(rnd, k) for k in kids])
+
+
+def retag(n, t_old, t_new):
+    """Neutral value of the same Python value under a widened type."""
+    name, kids = t_old
+    name2, kids2 = t_new
+    if name == "float" and name2 == "double":
+        return ("f64", refcodec.f64_bits(refcodec.f32_from_bits(n[1])))
+    if name in ("sequence", "set"):
+        tag = "seq" if name2 == "sequence" else "set"
+        return (tag, [retag(x, kids[0], kids2[0]) for x in n[1]])
+    if name == "mapping":
+        return ("map", [(retag(k, kids[0], kids2[0]),
+                         retag(x, kids[1], kids2[1])) for k, x in n[1]])
+    if name == "tuple":
+        return ("tup", [retag(x, a, b) for x, a, b in zip(n[1], kids,
+                                                         kids2)])
+    if name == "variant":
+        return ("var", n[1], retag(n[2], kids[n[1]], kids2[n[1]]))
+    return n
 
 
 def hashable_type(t):
@@ -149,6 +169,14 @@ def run(ctx):
                     t, raw = unknown_type(rnd, rnd.choice([0, 0, 1, 2, 3]))
                     kind = "unknown"
                 tables[lvl].append(Table(key, reftypes.show(t), raw, kind))
+        # byte-identical twins of a table under another key / level
+        allt = [(lvl, t) for lvl, ts in tables.items() for t in ts]
+        for _ in range(rnd.choice([0, 0, 1, 1, 2])):
+            lvl, t = rnd.choice(allt)
+            lvl2 = rnd.choice(["ir", "mod"])
+            key = "twin%d" % len(tables[lvl2])
+            tables[lvl2].append(Table(key, t.tn, t.raw, t.kind))
+            ctx.count("twin_tables")
         data = {"uuid": "%032x" % rnd.getrandbits(128), "version": 4,
                 "aux_data": {t.key: {"type_name": t.tn, "data": t.raw.hex()}
                              for t in tables["ir"]},
@@ -197,6 +225,7 @@ def run(ctx):
                         expect[(lvl, t.key)] = ("unknown-read", t.tn, t.raw,
                                                 None)
                         continue
+                    model = refcodec.decode(t.raw, tt)[0]
                     if act == "read":
                         v = ad.data
                         cls = "read"
@@ -205,6 +234,8 @@ def run(ctx):
                         if isinstance(v, list):
                             w = auxgen.gen_value(rnd, tt[1][0], pool)
                             v.append(w)
+                            model = ("seq", model[1] + [
+                                refcodec.neutral(w, tt[1][0])])
                         elif isinstance(v, set):
                             for _ in range(5):
                                 w = auxgen.gen_value(rnd, tt[1][0], pool,
@@ -212,14 +243,24 @@ def run(ctx):
                                 if w not in v:
                                     break
                             v.add(w)
+                            model = ("set", model[1] + [
+                                refcodec.neutral(w, tt[1][0])])
                         elif isinstance(v, dict):
                             kk = auxgen.gen_value(rnd, tt[1][0], pool, True)
-                            v[kk] = auxgen.gen_value(rnd, tt[1][1], pool)
+                            vv = auxgen.gen_value(rnd, tt[1][1], pool)
+                            v[kk] = vv
+                            model = ("map", model[1] + [
+                                (refcodec.neutral(kk, tt[1][0]),
+                                 refcodec.neutral(vv, tt[1][1]))])
                         else:  # immutable value: replace it
-                            ad.data = auxgen.gen_value(rnd, tt, pool)
+                            nv = auxgen.gen_value(rnd, tt, pool)
+                            ad.data = nv
+                            model = refcodec.neutral(nv, tt)
                         cls = "mutated"
                     elif act == "assign":
-                        ad.data = auxgen.gen_value(rnd, tt, pool)
+                        nv = auxgen.gen_value(rnd, tt, pool)
+                        ad.data = nv
+                        model = refcodec.neutral(nv, tt)
                         cls = "assigned"
                     else:
                         if act == "rename_read":
@@ -235,10 +276,11 @@ def run(ctx):
                         else:
                             ad.type_name = reftypes.show(nt)
                             t.tn = reftypes.show(nt)
+                            model = retag(model, tt, nt)
                             tt = nt
                             cls = "renamed-read" if act == "rename_read" \
                                 else "renamed-unread"
-                    expect[(lvl, t.key)] = (cls, t.tn, t.raw, ad)
+                    expect[(lvl, t.key)] = (cls, t.tn, t.raw, (ad, model))
             # save and inspect the written message
             raw2 = irio.save(ir)
             msg = irio.parse_ir_message(gtirb, raw2)
@@ -274,8 +316,24 @@ def run(ctx):
                         continue
                     # touched, supported: encoding of the current value
                     tt = refcodec.parse(tn)
+                    ad, model = ad
                     cur = ad.data
                     want_bytes = refcodec.encode(cur, tt)
+                    # independent of what the implementation now holds: the
+                    # harness's own model of the table's value
+                    try:
+                        n, pos = refcodec.decode(bytes(w.data), tt)
+                        okm = pos == len(w.data) and refcodec.norm(n) == \
+                            refcodec.norm(model)
+                    except refcodec.RefError:
+                        okm = False
+                    if not okm:
+                        raise Discrepancy(
+                            "C14", "value-differs-from-history:" + cls,
+                            "a table that was %s is written with a value "
+                            "that is not the one its own history gives it "
+                            "(type %s): written %s" % (
+                                cls, tn, bytes(w.data).hex()[:80]), {})
                     if want_bytes != old_raw:
                         ctx.count("stale_bytes_would_differ")
                     try:
